@@ -167,10 +167,14 @@ pub fn c12_move<const STEP: usize, const KIND: u8>(inp: &Inp) -> Verdict {
     // pending push has at least one completion.
     let nb = board_of(ns.piece_board());
     let nstep = ns.unwrap_play_phase().step();
-    assert!(
-        model::pending_ok(&nb, ns.is_p1_turn_to_move(), nstep, got),
-        "C12: pending status inconsistent with the new board (no completion / square occupied)"
-    );
+    // (needs B3 in the pre-state: from a parsed position whose only pusher stands unsupported on a
+    // trap, the pusher is removed by the very step that starts the push - solver-found, DESIGN §8)
+    if s.board.traps_supported() {
+        assert!(
+            model::pending_ok(&nb, ns.is_p1_turn_to_move(), nstep, got),
+            "C12: pending status inconsistent with the new board (no completion / square occupied)"
+        );
+    }
     vcover!(matches!(want, Pending::Push(_, _)), "C12 witness: a push is started");
     vcover!(matches!(want, Pending::Pull(_, _)), "C12 witness: a possible pull is recorded");
     vcover!(
